@@ -9,7 +9,7 @@ import (
 
 // maxResolved bounds the crashing cases that are resolved op by op in one run (each costs several
 // child processes); further crashing cases are reported truncated to nothing and counted.
-const maxResolved = 40
+const maxResolved = 16
 
 var resolved = 0
 
@@ -45,6 +45,14 @@ func Batch(c *hx.Ctx, scripts [][]string) [][]string {
 		}
 	}
 	c.Note("child:batch-died")
+	if resolved >= maxResolved {
+		// enough fatal ops have been pinned down in this run: the cases of this batch are only counted
+		c.Note("child:batch-died-unresolved")
+		for i := range out {
+			out[i] = []string{}
+		}
+		return out
+	}
 	runPrefix := func(sc []string, n int) (string, []string) {
 		r := hx.RunChild("case", strings.Join(sc[:n], "\n"), 30*time.Second)
 		return r, split(r, n)
